@@ -4,5 +4,5 @@ Steps == { St("i4", "NONE", 0), St("ld", "ARG", 0), St("ld", "ARG", 1), St("ld",
            St("br", "ARG", 0), St("bre", "ARG", 0), St("mv", "REG", 0), St("ldx", "OP", 0), St("ld", "REG", 0), St("ld", "ARG2X", 0) }
 Pats == {"num", "reg", "ind", "num2", "none"}
 V2s == {"none", "num", "reg", "any"}      \* here "none" = there is no second variant
-Invs == {"lit", "fwd", "back", "reg", "ind", "lit2", "bare"}
+Invs == {"lit", "fwd", "back", "reg", "ind", "lit2", "bare", "sum"}
 =============================================================================
